@@ -6,6 +6,11 @@ def libbits_single : List Nat := [0, 32768, 1024, 512, 256, 128, 64, 32, 16, 204
 def max_pooled_compression_entries : Nat := 64
 def msgbits_single : List Nat := [0, 32768, 1024, 512, 256, 128, 64, 32, 16, 2048, 4096, 8192, 16384, 32768, 0, 1, 2, 4, 8, 0, 0, 15]
 def pack_buffer_size : Nat := 4096
+def puts_after_err : Nat := 1
+def puts_after_fail : Nat := 1
+def puts_after_ok : Nat := 1
+def puts_after_panic : Nat := 1
+def puts_after_werr : Nat := 1
 def type_opt : Nat := 41
 
 end SdnsVerif.Gen.C15
